@@ -124,7 +124,14 @@ class Report:
                 'Static derivation over the source of /repo/metric_learn '
                 '(parsed on this run): every obligation listed was decided '
                 'for all inputs / paths by abstract interpretation of the '
-                'resolved program, not by executing it.'),
+                'resolved program, not by executing it.' + (
+                    ' Obligations of the rules named R-INTERP:* are decided '
+                    'on the finite partition of inputs (representative '
+                    'layouts / option combinations) stated in the rule text, '
+                    'by an interpreter over the function\'s syntax tree with '
+                    'symbolic tokens for data and library results.'
+                    if any(r.startswith('R-INTERP') for r in self.rules)
+                    else '')),
             'obligations': len(self.obs),
             'discharged': len(derived),
             'refuted': len(refuted),
